@@ -333,6 +333,15 @@ func analyse(s *kit.Summary, r *kit.Rng, h *history, res *histResult, longrun, p
 		}
 		key["config"] = h.Config
 		key["workers"] = h.Workers
+		if h.Workers > 1 && kind != "dial_path_data_race" && kind != "dns_cache_entry_mutated" {
+			// with concurrent diallers every logical failure is (also) a symptom of the
+			// unsynchronised dial path: torn strings, lost updates, half-done swaps
+			if _, ok := key["symptom"]; !ok {
+				key["symptom"] = kind
+			}
+			kind = "dial_path_data_race"
+			what = "under concurrent dialling: " + what
+		}
 		s.Violate(kit.Violation{Kind: kind, What: what, Input: h, Expected: exp, Observed: obs, Key: key})
 	}
 	conc := h.Workers > 1
